@@ -42,6 +42,13 @@ CORPUS = [
     (45, dict(method='pit', dim=2, fold=False, auto=False, userpit='some', ufold='same', train=False, multi=False, excl=False, mixed=True)),
     (46, dict(method='mps', dim=2, train=True, multi=False, mixed=True)),
     (47, dict(method='mps', dim=2, train=False, multi=False, mixed=True)),
+    # BatchNorm built with non-default hyper-parameters (eps 1e-3 .. 0.1, momentum, affine=False), small running variances
+    (61, dict(method='pit', dim=2, fold=False, auto=True, userpit='none', train=False, multi=False, excl=False, bnhp=True)),
+    (62, dict(method='pit', dim=1, fold=True, auto=True, userpit='none', train=True, multi=False, excl=False, bnhp=True)),
+    (63, dict(method='pit', dim=2, fold=True, auto=True, userpit='none', train=False, multi=False, excl=True, bnhp=True)),
+    (64, dict(method='pit', dim=1, fold=False, auto=False, userpit='some', ufold='same', train=False, multi=False, excl=False, bnhp=True)),
+    (65, dict(method='sn', dim=2, train=False, multi=False, bnhp=True)),
+    (66, dict(method='mps', dim=2, train=False, multi=False, bnhp=True)),
     # forward() branching on self.training, model handed over in training mode
     (51, dict(method='pit', dim=2, fold=False, auto=True, userpit='none', train=True, multi=False, excl=False, tbranch='logsoftmax')),
     (52, dict(method='pit', dim=1, fold=True, auto=True, userpit='none', train=True, multi=False, excl=False, tbranch='aux')),
@@ -63,6 +70,8 @@ def gen_cases(ctx):
         nonlocal k
         k += 1
         cfg['mixed'] = rng.random() < 0.45      # some modules flipped against the root's mode (frozen BN / Dropout ...)
+        if not cfg.get('integer'):
+            cfg['bnhp'] = rng.random() < 0.6     # BatchNorm with non-default eps / momentum / affine and small running variances
         cases.append((base + k, cfg))
     for rep in range(n):
         for fold in (False, True):
@@ -97,8 +106,8 @@ def gen_cases(ctx):
 
 def cfg_tag(cfg):
     if cfg['method'] != 'pit':
-        return '%s%s%s:%s' % ('mixed-flags:' if cfg.get('mixed') else '', 'training-branch:' if cfg.get('tbranch') else '', cfg['method'], 'train' if cfg['train'] else 'eval')
-    return ('mixed-flags:' if cfg.get('mixed') else '') + ('training-branch:' if cfg.get('tbranch') else '') + 'pit:%s:%s:%s%s:%s' % ('auto' if cfg['auto'] else 'import', 'userpit-' + cfg.get('userpit', 'none'), 'fold' if cfg['fold'] else 'nofold',
+        return '%s%s%s:%s' % ('mixed-flags:' if cfg.get('mixed') else '', ('training-branch:' if cfg.get('tbranch') else '') + ('bn-hp:' if cfg.get('bnhp') else ''), cfg['method'], 'train' if cfg['train'] else 'eval')
+    return ('mixed-flags:' if cfg.get('mixed') else '') + ('training-branch:' if cfg.get('tbranch') else '') + ('bn-hp:' if cfg.get('bnhp') else '') + 'pit:%s:%s:%s%s:%s' % ('auto' if cfg['auto'] else 'import', 'userpit-' + cfg.get('userpit', 'none'), 'fold' if cfg['fold'] else 'nofold',
                                   ':int' if cfg.get('integer') else '', 'train' if cfg['train'] else 'eval')
 
 
